@@ -89,7 +89,8 @@ impl Field {
             let (xml_name, namespace_ref) = split_type(ref_name);
             let rust_name = as_field_name(xml_name);
 
-            if ref_name.starts_with("xml") {
+            // the reserved prefix `xml` (xml:lang, xml:space), not every name that begins with these letters
+            if ref_name.starts_with("xml:") {
                 /* This is a reference to an XML type */
                 return Ok(Field {
                     xml_name: xml_name.to_string(),
